@@ -53,6 +53,8 @@ def shrink_candidates(case):
                     variant(**{key: [v[i]]})
     for key in ("filter_out", "stop", "options", "names", "attrs", "targets"):
         v = case.get(key)
+        if key == "names" and any(isinstance(q, dict) and "expect" in q for q in case.get("queries", [])):
+            continue        # an expected answer is only meaningful with the names it was spelled from
         if isinstance(v, list) and v:
             for i in range(len(v)):
                 variant(**{key: v[:i] + v[i + 1:]})
@@ -349,7 +351,7 @@ def main():
         best = prop_fail[0]
         original_len = len(case_key(best["case"]))
         if not args.replay:
-            best, rounds = shrink(best, judge, classify, known, args.repo)
+            best, rounds = shrink(best, judge, classify, known, args.repo, 0.0 if os.environ.get("VERIF_NOSHRINK") else 25.0)
             notes.append("replay minimised in %d rounds: %d -> %d characters" % (rounds, original_len, len(case_key(best["case"]))))
         replay_path = os.path.join("replays", "%s-violation.json" % pid)
         core.write_json(os.path.join(core.VERIF, replay_path), {
